@@ -128,6 +128,10 @@ def run(chk):
         'WHILE 0\nWEND\nDO\nLOOP UNTIL 1\nFOR i = 1 TO 0\nNEXT\n',
         'ON ERROR GOTO h\nPRINT 1 \\ 0\nPRINT "after"\nEND\nh: RESUME NEXT\n',
         'CALL p\nSUB p\nEND SUB\nFUNCTION f\nEND FUNCTION\n',
+        # unreachable code behind END / GOTO with a string literal of its own (the peephole pass deletes it without -g)
+        'PRINT "total"\nGOSUB addit\nEND\nPRINT "not reached"\naddit:\nPRINT "in"\nRETURN\n',
+        'GOTO 10\nPRINT "skipped"; "also"\n10 PRINT "shown"\nEND\nx$ = "dead"\nPRINT x$\n',
+        'CALL p\nEND\nPRINT "tail"\nSUB p\n  PRINT "p"\n  EXIT SUB\n  PRINT "after exit"\nEND SUB\n',
     ]
     special += chain_programs()
     nprog += len(special)
